@@ -117,7 +117,7 @@ def run_unit(pid, meta, tier, seed, replay=None):
     known_open, _ = load_known(pid)
     known = set(known_open)
     if meta.get("build") == "standalone":
-        build.ensure_build()
+        build.ensure_build(need_proxy=meta.get("needs_proxy_build", True))
         exe = build.build_standalone(pid, meta, [os.path.join(VERIF, "props", pid, "harness.cc")] + meta.get("sources", []))
     else:
         build.ensure_build()
